@@ -1628,7 +1628,7 @@ func c16GenKinds(rt *rapid.T) *c16Case {
 	case "arg":
 		k := rapid.IntRange(1, 2).Draw(rt, "nMissing")
 		for j := 0; j < k; j++ {
-			m := rapid.SampledFrom([]string{"tree/gone.go", "nowhere", "tree/c/absent.go", "./tree/none/...", "tree/zz.go"}).Draw(rt, "missing")
+			m := rapid.SampledFrom([]string{"tree/gone.go", "nowhere", "tree/c/absent.go", "./tree/none/...", "tree/zz.go", "tree/gone[1].go", "tree/what?.go", "tree/no*.go"}).Draw(rt, "missing")
 			dup := false
 			for _, x := range cs.Missing {
 				dup = dup || x == m
